@@ -30,3 +30,22 @@ CONFIG = {
         "known finding C07:store-stale-read (read overtaken by a completed write-back) is a property of the repaired code too: returned_handle_latest_refuted",
     ],
 }
+
+
+# ---- merged by the coordinator: ISC analyzers (checks/snippets/isc.json) and the
+# scheduler's selector/learner call protocol (shared harness "sched", kinds "C07:...")
+import json as _json, os as _os, importlib.util as _ilu
+_here = _os.path.dirname(_os.path.abspath(__file__))
+_isc = _json.load(open(_os.path.join(_here, "snippets", "isc.json")))
+_spec = _ilu.spec_from_file_location("_sched", _os.path.join(_here, "_sched.py"))
+_sm = _ilu.module_from_spec(_spec); _spec.loader.exec_module(_sm)
+_sched = _sm.config("C07") if "C07" in _sm.TEXT else None
+CONFIG["coq_dirs"] += _isc["coq_dirs"] + ["theories/Sched"]
+CONFIG["coq_targets"] += _isc["coq_targets"] + ["theories/Sched/Corr.vo", "theories/Sched/PropertiesC07s.vo"]
+CONFIG["properties_files"] += _isc["properties_files"] + ["theories/Sched/PropertiesC07s.v"]
+CONFIG["required_theorems"] += _isc["required_theorems"]
+CONFIG["violation_kinds"] = ["C07:"]
+CONFIG["harnesses"] += _isc["harnesses"] + (_sched["harnesses"] if _sched else [])
+CONFIG["trusted_base"] += _isc["trusted_base"] + (_sched["trusted_base"] if _sched else [])
+CONFIG["assumptions"] += _isc["assumptions"] + (_sched["assumptions"] if _sched else [])
+CONFIG["manifest"]["level_text"] += " " + _isc["manifest_text_addition"] + " Scheduler part: the selector/learner call protocol (exactly one of Select/Abandoned per request, one terminal call per learner, retry once on the largest size class, background learning uncacheable and bounded) is part of the scheduler model's ghost output, proved over all event lists and monitored on the real scheduler's calls on scripted analyzers."
